@@ -704,6 +704,91 @@ class H6(Case):
         return [Ob.holds(label + ": entry [i, j] == Corr(step i, step j) for i <= j, NaN below the diagonal", all_of(conds), key=key)]
 
 
+# ------------------------------------------------------------------------------------------
+# H7  the operator whose correlations TwoTimeBathCorrelations generates is the bath's coupling operator
+# ------------------------------------------------------------------------------------------
+COUPLINGS = {
+    "sigma_y": np.array([[0.0, -1.0j], [1.0j, 0.0]]),
+    "n_sigma": np.array([[1.0, 2.0 - 2.0j], [2.0 + 2.0j, -1.0]]) / 3.0,         # complex Hermitian, eigenvalues +-1
+    "sigma_x": np.array([[0.0, 1.0], [1.0, 0.0]]),
+    "herm3": np.array([[0.0, 1.0 - 1.0j, 0.5j], [1.0 + 1.0j, 1.0, 2.0], [-0.5j, 2.0, -1.0]]),
+}
+
+
+class H7(Case):
+    """real Bath (eigh of a complex Hermitian coupling operator O, built outside the symbolic environment) and real
+    TwoTimeBathCorrelations.generate_system_correlations with a recording compute_correlations:
+    (a) with the bath's own diagonal the operators handed over equal O, the operator given to Bath;
+    (b) with the stored diagonal replaced by SYMBOLIC eigenvalues d (the stored unitary U kept) they equal
+        sum_k U[i,k] d_k conj(U[j,k]) = (U diag(d) U^dagger)[i,j] for all d."""
+    functions = ("TwoTimeBathCorrelations.__init__", "TwoTimeBathCorrelations.generate_system_correlations", "Bath.__init__",
+                 "Bath.unitary_transform", "Bath.coupling_operator")
+    stubs = ("bath_dynamics.compute_correlations -> recorder of the operators it is given",
+             "numpy.linalg.eigh runs for real on the concrete operator (its contract O = U diag(w) U^dagger is asserted by Bath itself)")
+    env = ENV_BD
+
+    def __init__(self, name):
+        self.name = name
+        self.O = COUPLINGS[name]
+        self.dim = self.O.shape[0]
+        self.id = "H7/coupling_operator_%s" % name
+        self.bounds = {"coupling operator": name, "dimension": self.dim, "eigenvalues": "symbolic real (b) / the bath's own (a)"}
+        sdens = oqupy.PowerLawSD(alpha=0.1, zeta=1.0, cutoff=1.0, cutoff_type="exponential")
+        self.bath_a = oqupy.Bath(self.O.copy(), sdens)
+        self.bath_b = oqupy.Bath(self.O.copy(), sdens)
+
+    def run(self, inp):
+        import oqupy.bath_dynamics as bd
+        dim, N = self.dim, 2
+        pt = ptm.SimpleProcessTensor(hilbert_space_dimension=dim, dt=0.1)
+        for k in range(N):
+            pt.set_mpo_tensor(k, np.ones((1, 1, dim * dim)))
+        system = oqupy.System(np.zeros((dim, dim)))
+        rho0 = np.identity(dim) / dim
+        got = []
+
+        def rec(system_, pt_, op_a, op_b, times_a, times_b, **kw):
+            got.append((op_a, op_b))
+            grid = list(range(len(pt_) + 1))
+            ia, ib = grid[times_a], grid[times_b]
+            return None, np.zeros((len(ia), len(ib)), dtype=complex)
+
+        d = [inp.real("d%d" % k) for k in range(dim)]
+        U = np.array(self.bath_b.unitary_transform, dtype=complex)
+        saved = self.bath_b._coupling_operator
+        Dm = inp.const(np.zeros((dim, dim)))
+        for k in range(dim):
+            Dm[k, k] = d[k]
+        try:
+            self.bath_b._coupling_operator = Dm
+            with patched({BD + ".compute_correlations": rec}), _quiet():
+                bd.TwoTimeBathCorrelations(system, self.bath_a, pt, initial_state=rho0).generate_system_correlations(0.2, progress_type="silent")
+                bd.TwoTimeBathCorrelations(system, self.bath_b, pt, initial_state=rho0).generate_system_correlations(0.2, progress_type="silent")
+        finally:
+            self.bath_b._coupling_operator = saved
+        obs = [Ob.holds("compute_correlations asked once per object", len(got) == 2, key="calls")]
+        if len(got) != 2:
+            return obs
+        exp = inp.const(np.zeros((dim, dim)))
+        for i in range(dim):
+            for j in range(dim):
+                acc = inp.zero()
+                for k in range(dim):
+                    if inp.mode == "real":
+                        acc = acc + U[i, k] * np.conj(U[j, k]) * d[k]
+                    else:            # every stored matrix entry is read as the exact number the engine lifts it to
+                        acc = acc + S.of(complex(U[i, k])) * S.of(complex(np.conj(U[j, k]))) * d[k]
+                exp[i, j] = acc
+        for nm, op in (("operator_a", got[1][0]), ("operator_b", got[1][1])):
+            obs.append(ob_eq_poly(inp, "(b) %s == U diag(d) U^dagger for symbolic eigenvalues d" % nm, op, exp, key="rotation"))
+        from vf.core import _as_complex
+        for nm, op in (("operator_a", got[0][0]), ("operator_b", got[0][1])):
+            a = _as_complex(op)
+            obs.append(Ob.holds("(a) %s handed to compute_correlations == the coupling operator given to Bath" % nm,
+                                a.shape == self.O.shape and bool(np.max(np.abs(a - self.O)) <= 1e-9), key="bath_operator"))
+        return obs
+
+
 def cases(tier):
     cs = []
     # ---- H1 _parse_times
@@ -719,6 +804,7 @@ def cases(tier):
         cs += [H2("ordered", ("list2", "list3"), 2, part), H2("anti", ("list2", "list2"), 2, part), H2("nt", ("int", "int", "list2"), 2, part)]
     cs += [H2("nt", ("int", "int", "int", "int"), 3)]          # earlier operators pairwise out of order (needs >= 4 operators)
     cs += [H6(3, 2), H6(4, 3)]
+    cs += [H7("sigma_y"), H7("n_sigma"), H7("sigma_x"), H7("herm3")]
     # ---- H3 dt
     cs += [H3Stub("none"), H3Stub("set"), H3Real("none"), H3Real("set"), H3Real("set", start=0.3), H3Real("none", start=-0.7),
            H3Real("set", start=0.3, pass_dt=False)]
